@@ -8,7 +8,7 @@ RULES = {
     "C01": [("sa.rules.b6", "r_C19a_C01"), ("sa.rules.c01", "r_C01ef"), ("sa.rules.c17", "r_C01h"), ("sa.rules.c01", "r_C01i"), ("sa.rules.c22", "r_rule_params_eval"), ("sa.rules.b6", "r_C23"), ("sa.rules.c04", "r_C04a"), ("sa.rules.c04", "r_C04num")],
     "C02": [("sa.rules.b6", "r_C02ab"), ("sa.rules.b3", "r_C02cd"), ("sa.rules.b3", "r_C08_C34"), ("sa.rules.c08", "r_C08bc"), ("sa.rules.c01", "r_C01ef")],
     "C03": [("sa.rules.b1", "r_C03a"), ("sa.rules.b6", "r_C03bc"), ("sa.rules.b3", "r_C03de_C11a_C17bc"), ("sa.rules.c03", "r_C03fgh"), ("sa.rules.c03", "r_C03j"), ("sa.rules.c25", "r_C25efg")],
-    "C04": [("sa.rules.b2", "r_C04"), ("sa.rules.c04", "r_C04a"), ("sa.rules.c04", "r_C04num"), ("sa.rules.c04", "r_C04defaults"), ("sa.rules.c01", "r_C01ef")],
+    "C04": [("sa.rules.b2", "r_C04"), ("sa.rules.c04", "r_C04a"), ("sa.rules.c04", "r_C04num"), ("sa.rules.c04", "r_C04defaults"), ("sa.rules.c01", "r_C01ef"), ("sa.rules.cmisc", "r_C06bcd")],
     "C05": [("sa.rules.b3", "r_C05_C10"), ("sa.rules.c05", "r_C05cde"), ("sa.rules.c14", "r_C14h")],
     "C06": [("sa.rules.b7", "r_origin"), ("sa.rules.cmisc", "r_C06bcd")],
     "C07": [("sa.rules.b3", "r_C07"), ("sa.rules.b6", "r_C03bc"), ("sa.rules.c03", "r_C03fgh"), ("sa.rules.c05", "r_C07c"), ("sa.rules.c05", "r_none_tests"), ("sa.rules.c01", "r_C01i")],
@@ -61,7 +61,7 @@ ALSO = {
     # eolterm/sep modifiers not installed -> the memoized and the plain parser disagree on the repetition's extent
     "C19": {"C01": ("C01.b",)},
     # base type conversion: with use_regexp_group the converted text is decided by C01.g
-    "C04": {"C01": ("C01.g",)},
+    "C04": {"C01": ("C01.g",), "C06": ("C06.c",)},
     # C01.c (rule modifiers on an expression that ignores them) is the whitespace clause of C22 as well
     "C22": {"C01": ("C01.c",)},
     "C01": {"C04": ("C04.a", "C04.d",), "C23": ("C23.c",)},
@@ -77,10 +77,11 @@ ALSO = {
 # general clause families (sa/rules/gen.py): registered for every property they can attribute a finding to
 def _register_general():
     from sa.rules import gen
-    fn_of = {"T": "r_truth", "M": "r_memo", "O": "r_options", "S": "r_shallow", "P": "r_postponed"}
+    fn_of = {"T": ("r_truth",), "M": ("r_memo",), "O": ("r_options",), "S": ("r_shallow", "r_intern"), "P": ("r_postponed",), "V": ("r_records",)}
     for fam, ps in gen.families().items():
         for p in sorted(ps):
-            if ("sa.rules.gen", fn_of[fam]) not in RULES[p]: RULES[p].append(("sa.rules.gen", fn_of[fam]))
+            for f_ in fn_of[fam]:
+                if ("sa.rules.gen", f_) not in RULES[p]: RULES[p].append(("sa.rules.gen", f_))
 _register_general()
 
 def rule_functions(prop):
